@@ -337,7 +337,7 @@ def mesh_oracle(ctx, mk):
 
 # ------------------------------------------------------------------ search
 QUICK_N = {"cuboid_partition": 150, "cylinder_partition": 110, "cuboid_repr": 150, "sphere_dipole": 60,
-           "polyline_circle": 40, "mesh_convert": 100}
+           "polyline_circle": 40, "mesh_convert": 100, "mixed_partition": 100}
 
 
 def load_corpus():
@@ -391,6 +391,9 @@ def run(ctx):
                          "non-trivial: dispatch batches with at least one full-angle row, meshes with at least one "
                          "shared vertex, every formula row and every search case")
     ctx.trusted += [
+        "translator translate/gen_cuboid.py: the six closed-form terms of magnet_cuboid_Bfield and the table that "
+        "assembles B from them are re-translated from /repo on every run (Gen/GenCuboid.v); arctan2 is a parameter "
+        "of the theorems, np.log -> ln, np.sqrt -> sqrt over R; the octant flip is checked for shape, not modelled",
         "hand models coq/Model/ReprModel.v (+ReprExec.v) of BHJM_magnet_sphere, BHJM_dipole, "
         "BHJM_cylinder_segment_internal, J/M of BHJM_magnet_cylinder, np.unique(return_inverse) mesh construction, "
         "to_TriangleCollection, tied by correspondence only (no translator): integer dispatch batches with stub "
@@ -401,10 +404,11 @@ def run(ctx):
         "Polyline->Circle, from_ConvexHull) are NOT proved: numerical search only (harness/c13_search.py), "
         "tolerances 1e-7..2e-6 of the local field",
     ]
-    built = ctx.build_props()
+    ok = ctx.regen(["GenCuboid"])
+    built = ctx.build_props() and ok
     if ctx.tier == "thorough" and built:
         ctx.coqchk("MV.Props.C13")
-    ctx.partial += ["C13_cuboid_axis_partition_partial"]
+    ctx.partial += [t for t in ctx.theorems if t.endswith("_partial")]
     mk = run_guarded(ctx, lambda: exact_correspondence(ctx, built), "C13 exact correspondence") or []
     if built:
         run_guarded(ctx, lambda: float_correspondence(ctx, ctx.n(240, 2400)), "C13 float correspondence")
